@@ -31,6 +31,11 @@ CHECKS = {
         text="Response data (key order, aliases, merged keys, fragments on abstract types, directives, leaf serialisation) and the multiset of error paths of every observed execution are decided by an executable model of the specification's execution algorithm driven by the same resolver world; history independence is checked by re-issuing earlier requests on the same Schema object.",
         note="Trusts R-EXEC, R-COLLECT and R-COERCE (vf/ref) and the generators' validity-by-construction; schemas are code-built; errors compared by path multiset and field node.",
         design="4/C04"),
+    "C07": dict(
+        technique="spy resolvers record the keyword arguments of every invocation; a runtime monitor compares them with the input-coercion model R-COERCE, checks type conformance, absence of invocations for inputs the model rejects, and equality of the inline and variable delivery routes; direct calls to coerce_value / value_from_ast are decided by the same model",
+        text="Every resolver invocation observed under generated argument plans (omitted / inline / variable / nested variable x valid / null / mutated) is checked for exact equality with the specification's coercion result and for conformance to the declared types; rejected inputs must not reach a resolver.",
+        note="Trusts R-COERCE; lexical leniency of the built-in scalars (bool(x), str(x), int('3')) is classed lenient and never flagged.",
+        design="4/C07"),
 }
 
 PENDING_REASON = "check not built yet in this session (planned: see DESIGN.md section 4); no claim is made"
